@@ -127,6 +127,15 @@ Framing(hs, c, code, skip) ==
     ELSE IF c.mode = "client" THEN [ok |-> TRUE, fr |-> <<"close">>]
     ELSE [ok |-> TRUE, fr |-> <<"none">>]
 
+(* a duplicated / list-valued Content-Length with identical members is replaced by the single value
+   before the message is handed on (RFC 9112 6.3 rule 5) *)
+NormCL(hs) ==
+    IF ~Has(hs, NameCL) THEN hs
+    ELSE LET v == SplitOn(Combined(hs, NameCL), Comma)[1]
+             first == Min({i \in 1..Len(hs) : hs[i][1] = NameCL})
+             keep == SelectSeq([i \in 1..Len(hs) |-> i], LAMBDA i : hs[i][1] # NameCL \/ i = first) IN
+         [j \in 1..Len(keep) |-> IF keep[j] = first THEN <<NameCL, v>> ELSE hs[keep[j]]]
+
 (* Content-Encoding: gzip is decoded when configured; the field is then renamed *)
 IsGz(hs, c) == c.decompress /\ ToLower(Combined(hs, NameCE)) = Gzip
 GzHeaders(hs) == Append(WithoutName(hs, NameCE), <<NameXC, Combined(hs, NameCE)>>)
@@ -159,7 +168,7 @@ ServerHead(s, c, block, e) ==
          IF ~Has(hs, NameHost) /\ rl.version[8] = 49 THEN Reject400(s, "host", c)
          ELSE IF Has(hs, NameHost) /\ ~HostOK(host) THEN Reject400(s, "host", c)
          ELSE IF ~fm.ok THEN Reject400([Emit(s, EvH(sl, hs, <<"bad">>, TRUE, FALSE)) EXCEPT !.open = TRUE], fm.cause, c)
-         ELSE Begin(s, c, sl, hs, fm.fr, e, 0)
+         ELSE Begin(s, c, sl, NormCL(hs), fm.fr, e, 0)
 
 ClientHead(s, c, block, e) ==
     LET t == LStrip(block, {CR, LF})
@@ -177,7 +186,7 @@ ClientHead(s, c, block, e) ==
               ELSE [s EXCEPT !.pos = e, !.code = st.code]
          ELSE LET fm == Framing(hs, c, st.code, c.head \/ st.code = 304) IN
               IF ~fm.ok THEN Reject400(s, fm.cause, c)
-              ELSE Begin(s, c, sl, hs, fm.fr, e, st.code)
+              ELSE Begin(s, c, sl, IF c.head \/ st.code = 304 THEN hs ELSE NormCL(hs), fm.fr, e, st.code)
 
 HeadStep(s, c, b, e) ==
     LET from == s.pos + 1
